@@ -802,6 +802,22 @@ func c13extra(c *strict, w *sim.World, s *sim.Step) *Viol {
 var C13 = register(&HistProp{ID: "C13",
 	Genesis: func(t *rapid.T) *sim.GenSpec { return sim.DrawGenesis(t, sim.GenOpts{MaxAtt: 5}) },
 	Next: func(g *sim.G, i int) *sim.Op {
+		if op := queuedOp(g); op != nil {
+			return op
+		}
+		if g.Pct("attrollback", 7) {
+			// an attester-set change and a failing message that reads the set in one transaction (the
+			// SDK discards both), then the boundary actions for the set as it really is
+			m := g.W.Model
+			ops := rollbackProbeOf(g, "rb", []string{"EnableAttester", "EnableAttester", "DisableAttester", "UpdateSignatureThreshold"})
+			n := uint32(len(m.Atts))
+			if l := m.AttesterList(); len(l) > 0 {
+				ops = append(ops, sim.TxOp("admin:DisableAttester", &types.MsgDisableAttester{From: m.Roles[1], Attester: sim.Pick(g, "rb/dis", l)}))
+			}
+			ops = append(ops, sim.TxOp("admin:UpdateSignatureThreshold", &types.MsgUpdateSignatureThreshold{From: m.Roles[1], Amount: n + uint32(g.Int("rb/thr", 0, 1))}))
+			queueOps(g, ops[1:]...)
+			return ops[0]
+		}
 		if g.Pct("att", 85) {
 			return g.AdminOp("att", 85, []string{"EnableAttester", "DisableAttester", "DisableAttester", "UpdateSignatureThreshold"})
 		}
